@@ -463,7 +463,7 @@ fn run(plan: &Plan, ctx: &mut Ctx) -> R {
             // operations built from several applies work on intermediates as large as the product of their operands
             let work: u64 = match kind {
                 K_ITE => szs[0].max(1).saturating_mul(szs[1].max(1)).saturating_mul(szs[0].max(1).saturating_mul(szs[2].max(1))),
-                K_XOR | K_IFF => product.saturating_mul(product),
+                K_XOR | K_IFF | K_COMPOSE => product.saturating_mul(product).saturating_mul(4),
                 K_EXISTS => product.saturating_mul(product),
                 _ => product,
             };
